@@ -49,10 +49,19 @@ def lastQtry : List Ev → Nat → Option Bool
   | _ :: rest, id => lastQtry rest id
 
 /-- Requests queued and without verdict, with (id, priority, arrival); most recently queued first. -/
-def waiting (older : List Ev) : List (Nat × Nat × Nat) :=
-  older.filterMap fun
-    | .queued i p t => if wasDone older i then none else some (i, p, t)
-    | _ => none
+def waiting : List Ev → List (Nat × Nat × Nat)
+  | [] => []
+  | .queued i p t :: rest => if wasDone rest i then waiting rest else (i, p, t) :: waiting rest
+  | .done i _ _ :: rest => (waiting rest).filter fun x => x.1 != i
+  | _ :: rest => waiting rest
+
+/-- `j` was queued after the loop's most recent `pop i` (an arrival during the loop's attempt on `i`:
+the loop could not have chosen it). -/
+def queuedAfterPop : List Ev → Nat → Nat → Bool
+  | [], _, _ => false
+  | .pop k :: rest, i, j => if k == i then false else queuedAfterPop rest i j
+  | .queued k _ _ :: rest, i, j => if k == j then true else queuedAfterPop rest i j
+  | _ :: rest, i, j => queuedAfterPop rest i j
 
 /-- `a` was queued before `b` (both queued in `older`, most recent first). -/
 def queuedBefore : List Ev → Nat → Nat → Bool
@@ -73,25 +82,25 @@ def quotaOk (older : List Ev) : Ev → Bool
   | .done i true _ => lastQtry older i == some true
   | _ => true
 
-/-- (P) a request is not allowed while a request with a strictly lower priority number waits
-(unless that one's time-to-live is already over: it is then being rejected). -/
+/-- (P) a request is not allowed while a request with a strictly lower priority number waits —
+unless that one's time-to-live is already over (it is then being rejected) or it arrived only after
+the loop had picked the allowed one. -/
 def prioOk (cfg : Cfg) (older : List Ev) : Ev → Bool
   | .done i true t =>
     match infoOf older i with
     | none => true
-    | some (p, _) => (waiting older).all fun (j, pj, aj) => j == i || !(decide (pj < p)) || decide (aj + cfg.ttl < t)
+    | some (p, _) => (waiting older).all fun x =>
+        x.1 == i || !(decide (x.2.1 < p)) || decide (x.2.2 + cfg.ttl < t) || queuedAfterPop older i x.1
   | _ => true
 
-/-- (F) within one priority, earlier arrivals are allowed before later ones. -/
-def fifoBad (cfg : Cfg) (older : List Ev) (i p t : Nat) : List Nat :=
-  (waiting older).filterMap fun (j, pj, aj) =>
-    if j != i && pj == p && queuedBefore older j i && !(decide (aj + cfg.ttl < t)) then some j else none
-
+/-- (F) within one priority, earlier arrivals are allowed before later ones (same exemption for a
+waiter whose time-to-live is over). -/
 def fifoOk (cfg : Cfg) (older : List Ev) : Ev → Bool
   | .done i true t =>
     match infoOf older i with
     | none => true
-    | some (p, _) => (fifoBad cfg older i p t).isEmpty
+    | some (p, _) => (waiting older).all fun x =>
+        x.1 == i || x.2.1 != p || !queuedBefore older x.1 i || decide (x.2.2 + cfg.ttl < t)
   | _ => true
 
 /-- (B) never more than `queue_size` requests wait. -/
@@ -121,15 +130,24 @@ def lastRepush : List Ev → Nat → Option Nat
 def noneOverdue (cfg : Cfg) (older : List Ev) (me : Option Nat) (t : Nat) : Bool :=
   (waiting older).all fun (j, _, aj) => me == some j || inAttempt older j || decide (t ≤ aj + cfg.ttl + slack)
 
-/-- (T) a request is rejected by time-out only after its TTL and at most `slack` later — or at the
-very instant a refused attempt of the loop on it ended, if that was later —; no request is seen
-waiting beyond TTL + slack (shutdown excepted). -/
-def ttlOk (cfg : Cfg) (older : List Ev) : Ev → Bool
+/-- (T, lower half) a request is rejected by time-out only after its TTL (shutdown excepted). -/
+def ttlLowerOk (cfg : Cfg) (older : List Ev) : Ev → Bool
   | .done i false t =>
     drainSeen older ||
     (match infoOf older i with
      | none => true
-     | some (_, a) => decide (a + cfg.ttl < t) && (decide (t ≤ a + cfg.ttl + slack) || lastRepush older i == some t)) &&
+     | some (_, a) => decide (a + cfg.ttl < t))
+  | _ => true
+
+/-- (T, upper half — timeliness) ... and at most `slack` later — or at the very instant a refused
+attempt of the loop on it ended, if that was later —; no request is seen waiting beyond TTL + slack
+(shutdown excepted). -/
+def ttlUpperOk (cfg : Cfg) (older : List Ev) : Ev → Bool
+  | .done i false t =>
+    drainSeen older ||
+    (match infoOf older i with
+     | none => true
+     | some (_, a) => decide (t ≤ a + cfg.ttl + slack) || lastRepush older i == some t) &&
     noneOverdue cfg older (some i) t
   | .done i true t => drainSeen older || noneOverdue cfg older (some i) t
   | .queued _ _ t => drainSeen older || noneOverdue cfg older none t
@@ -147,10 +165,20 @@ def noPanic (_older : List Ev) : Ev → Bool
 /-- ... and releases every waiter (`hRev` = whole history, most recent first). -/
 def drainReleases (hRev : List Ev) : Bool := !drainSeen hRev || (waiting hRev).isEmpty
 
+/-- The safety part of C06 on a history (oldest first): one verdict, quota, priority, FIFO, bound,
+no early time-out, no crash.  PROVED of every schedule of the model (`Properties/C06.lean`). -/
+def holdsSafety (cfg : Cfg) (h : List Ev) : Bool :=
+  scan verdictOk [] h && scan quotaOk [] h && scan (prioOk cfg) [] h && scan (fifoOk cfg) [] h &&
+  scan (boundOk cfg) [] h && scan (ttlLowerOk cfg) [] h && scan noPanic [] h
+
+/-- The timeliness part: verdicts no later than TTL + slack, shutdown leaves nobody waiting.
+Depends on the watcher (and the loop) being scheduled: a labelled test on the implementation; in
+the model see `eventually_verdict`. -/
+def holdsTimely (cfg : Cfg) (h : List Ev) : Bool :=
+  scan (ttlUpperOk cfg) [] h && drainReleases h.reverse
+
 /-- The whole property C06 on a history (oldest first). -/
-def holds (cfg : Cfg) (h : List Ev) : Bool :=
-  scan verdictOk [] h && scan quotaOk [] h && scan (prioOk cfg) [] h && scan (ttlOk cfg) [] h &&
-  scan (fifoOk cfg) [] h && scan (boundOk cfg) [] h && scan noPanic [] h && drainReleases h.reverse
+def holds (cfg : Cfg) (h : List Ev) : Bool := holdsSafety cfg h && holdsTimely cfg h
 
 /-! ### The shared queue alone (level L1): every dequeue hands out a minimum -/
 
